@@ -219,5 +219,8 @@ def orbit2frame(name, ref_orbit, orientation=None, parent=EME2000, exists_warnin
         ref_orbit.frame.orientation,
         ref_orbit,
     )
+    # the propagator of the orbit may answer in another frame than the one the orbit
+    # is expressed in now (e.g. after orbit.frame = ...): remember the frame of the link
+    center_obj.offset_frame = ref_orbit.frame
 
     return Frame(name, orientation, center_obj, exists_warning)
